@@ -1,4 +1,7 @@
 """C16 and the command half of C19, decided with XpmWorkspace.tla"""
+import os as _os
+
+REPO_SRC = _os.environ.get("XV_REPO_SRC", "/repo/src")
 import json
 import os
 import subprocess
@@ -89,7 +92,7 @@ def lock_exclusion(rep, n):
     """Two processes entering the same experiment of the same workspace: the second one is inside only after the
     first one has left"""
     root = Path(tempfile.mkdtemp(prefix="xvlock-", dir=str(tlc.workdir("lock"))))
-    env = dict(os.environ, PYTHONPATH="/repo/src:/verif")
+    env = dict(os.environ, PYTHONPATH=REPO_SRC + ":/verif")
     env.pop("XPM_VERIF", None)
     try:
         for i in range(n):
